@@ -320,6 +320,7 @@ int connect(int fd, const struct sockaddr *addr, socklen_t len)
     if (nondet_bool()) { vg_errno = vg_any_errno(); return -1; }
     return 0;
 }
+#ifndef NET_OWN_ACCEPT
 int accept(int fd, struct sockaddr *addr, socklen_t *len)
 {
     if (!VG_FD_OPEN(fd)) { vg_errno = EBADF; return -1; }
@@ -332,6 +333,7 @@ int accept(int fd, struct sockaddr *addr, socklen_t *len)
     }
     return vg_new_fd();
 }
+#endif
 /* fcntl is variadic (see the snprintf note): re-bound to a fixed-arity model; the third argument is evaluated */
 int vg_fcntl(int fd, int cmd, long arg)
 {
